@@ -350,7 +350,7 @@ def c12(tier):
         progs.append({'name': 'manyscopes:%d' % (seed() * 100003 + k), 'text': unparse(ast), 'ast': strip_marks(ast)})
     chk.notes['many_scopes_programs'] = nmany
     # a let written directly in an operand slot declares its variable in the scope the expression stands in
-    ls = pool.let_slot_programs() + pool.assign_slot_programs()
+    ls = pool.let_slot_programs() + pool.assign_slot_programs() + [p for p in pool.corpus() if p['name'].startswith('edge:')]
     progs += ls
     chk.notes['let_in_operand_slot_programs'] = len(ls)
     chk.notes['programs'] = len(progs)
@@ -885,6 +885,10 @@ def c10(tier):
                  ('static:function-and-global-of-one-name', 'function f() -> 1; let f = 2; print("~ ~\\n", f(), f)'),
                  ('static:call-of-undefined-function-in-unused-code', 'function report(x) -> log_value(x); function sq(x) -> x * x; print("~\\n", sq(7))'),
                  ('static:read-of-undefined-global-in-unused-code', 'function report() -> nosuchglobal; print("~\\n", 49)')]:
+        progs.append({'name': n, 'text': t, 'ast': None})
+    # texts that are not programs at all must be refused by `fml run` as they are by the parser (nothing printed, a diagnostic, a non-zero status)
+    for n, t in [('notaprogram:shebang-line', '#!/usr/bin/env fml\nprint("a\\n")'), ('notaprogram:shebang-only', '#!fml run\n'), ('notaprogram:unterminated-string', 'print("a\\n); 1'),
+                 ('notaprogram:stray-at-sign', 'print("a\\n"); @'), ('notaprogram:unterminated-comment', 'print("a\\n") /* never closed'), ('notaprogram:dangling-operator', 'print("a\\n"); 1 +')]:
         progs.append({'name': n, 'text': t, 'ast': None})
     progs += deep_programs(tier)
     base = pool.random_programs(tier_sizes(tier, 80, 2500), base_seed=seed() * 4049 + 9, fault_rate=0.0, tag='mut')
